@@ -34,7 +34,7 @@ def r_dup_sanitize(ck: Checker) -> None:
         ck.violation("R-DUP-SANITIZE", f, lp, what, construct=f"duplicate iterates {norm(it)[:60]}")
         return
     obj, fld = norm(lp.target.elts[0]), norm(lp.target.elts[1])
-    leaves = decision_tree(lp.body)
+    leaves = decision_tree(lp.body, resolve="calls")
     k_node = f"isinstance({obj}, ASTNode)"
     k_tuple = f"isinstance({obj}, tuple)"
     stored = {"node": False, "tuple": False}
@@ -42,7 +42,7 @@ def r_dup_sanitize(ck: Checker) -> None:
     changes = None
     for lf in leaves:
         stores = [st for st in lf.stmts if isinstance(st, ast.Assign) and isinstance(st.targets[0], ast.Subscript)]
-        other = [st for st in lf.stmts if st not in stores]
+        other = [st for st in lf.stmts if st not in stores and not (isinstance(st, ast.Assign) and isinstance(st.targets[0], ast.Name))]  # locals are resolved into the stores
         if other:
             raise Unsupported(f"statement {norm(other[0])[:50]} in duplicate's loop", other[0])
         unknown = set(lf.assign) - {k_node, k_tuple}
